@@ -52,7 +52,7 @@ type c16Job struct {
 
 var c16AttrAlphabet = []c16Attr{
 	{"astr", "str", "hello world"}, {"aint", "int", int64(42)}, {"afloat", "float", 2.5}, {"abool", "bool", true},
-	{"anest", "nested", map[string]interface{}{"k": "v"}}, {"alist", "list", []interface{}{"p", "q"}}, {"aneg", "int", int64(-7)},
+	{"anest", "nested", map[string]interface{}{"k": "v"}}, {"alist", "list", []interface{}{"p", 1.5, "q", int64(7)}} /* a list of mixed kinds: a fractional number followed by further elements */, {"aneg", "int", int64(-7)},
 	{"abig", "int", int64(9007199254740993)}, // not representable as a float64
 }
 
